@@ -49,7 +49,18 @@ def run(ctx):
     known = next((e for e in core.load_known("C01") if e["id"] == KNOWN_W and e["status"] == "known"), None)
     n = 60 if ctx.quick else 600
     for k in range(n):
-        c = fibre.splice_at_last_reference_case(ctx.rng, False) if k < 2 else gen(ctx, ctx.rng)
+        if k < 2:
+            c = fibre.splice_at_last_reference_case(ctx.rng, False)
+        elif k < 4:
+            # two splices listed in decreasing position
+            c = None
+            for _ in range(30):
+                c = fibre.make_case(ctx.rng, double=False, nx=ctx.rng.randint(20, 30), nt=ctx.rng.randint(1, 4), n_baths=3, nta=2,
+                                    n_match=0, trans_order="desc")
+                if len(c.trans_att) == 2:
+                    break
+        else:
+            c = gen(ctx, ctx.rng)
         run_one(ctx, c, known)
 
 
